@@ -443,7 +443,10 @@ class Interface(Item):
         elif self.kind == "explicit":
             out = [st.kw("interface")]
         else:
-            out = [st.kw("interface") + " " + self.name]
+            nm = self.name
+            if "(" in nm:
+                nm = nm.replace("(", st.pick(f"{site}:generic-spec-blank", ["(", " ("]), 1)
+            out = [st.kw("interface") + " " + nm]
         for i, b in enumerate(self.bodies):
             out += ["  " + l for l in b.lines(st, f"{site}:body{i}")]
         if self.modprocs:
@@ -551,7 +554,7 @@ class Namelist(Item):
         decls = []
         for i, v in enumerate(self.vars):
             decls += v.lines(st, f"{site}:nvar{i}")
-        blk = st.pick(f"{site}:namelist-blanks", ["/n/ ", " /n/ "]).replace("n", self.name)
+        blk = st.pick(f"{site}:namelist-blanks", ["/n/ ", " /n/ ", " / n / "]).replace("n", self.name)
         nl = st.kw("namelist") + (" " if not blk.startswith(" ") else "") + blk + ", ".join(st.ref(n) for v in self.vars for n in v.names)
         return decls + [nl]
 
